@@ -16,19 +16,21 @@ Bump(i) == TLCSet(i, TLCGet(i) + 1)
 RECURSIVE Flat(_)
 Flat(bs) == IF bs = <<>> THEN <<>> ELSE Head(bs) \o Flat(Tail(bs))
 
+KindProp(e) == IF e.kind \in {"filter", "filter_map"} THEN "C10" ELSE "C09"
+
 Failures(e) ==
     LET isLimit == e.new >= 0
         src2 == IF isLimit THEN e.s ELSE Apply(e.d, e.s)
         p2   == IF isLimit THEN e.new ELSE e.p
         ds   == Flat(e.items)
         okInit == e.init = ViewOf(e.kind, e.p, e.s)
-    IN (IF e.end = "Panic" THEN {<<"C09", "panic">>} ELSE {})
-       \cup (IF e.end # "Panic" /\ ~okInit THEN {<<"C09", "init-view">>} ELSE {})
+    IN (IF e.end = "Panic" THEN {<<KindProp(e), "panic">>} ELSE {})
+       \cup (IF e.end # "Panic" /\ ~okInit THEN {<<KindProp(e), "init-view">>} ELSE {})
        \cup (IF e.end # "Panic" /\ e.kind \in {"head", "tail"} /\ Len(e.init) > e.p THEN {<<"C15", "init-exceeds-limit">>} ELSE {})
-       \cup (IF e.end # "Panic" /\ okInit /\ ~AllApplicable(ds, e.init) THEN {<<"C09", "inapplicable">>} ELSE {})
+       \cup (IF e.end # "Panic" /\ okInit /\ ~AllApplicable(ds, e.init) THEN {<<KindProp(e), "inapplicable">>} ELSE {})
        \cup (IF e.end # "Panic" /\ okInit /\ AllApplicable(ds, e.init) /\ ApplyAll(ds, e.init) # ViewOf(e.kind, p2, src2)
-             THEN {<<"C09", "view">>} ELSE {})
-       \cup (IF e.end \notin {"Pending", "Panic"} THEN {<<"C09", "end">>} ELSE {})
+             THEN {<<KindProp(e), "view">>} ELSE {})
+       \cup (IF e.end \notin {"Pending", "Panic"} THEN {<<KindProp(e), "end">>} ELSE {})
        \cup (IF e.end # "Panic" /\ okInit /\ ~isLimit /\ e.kind \in {"head", "tail"} /\ AllApplicable(ds, e.init)
                 /\ \E j \in 1..Len(ds) : Len(States(ds, e.init)[j]) > e.p
              THEN {<<"C15", "exceeds-limit">>} ELSE {})
